@@ -3,7 +3,9 @@ package main
 // C05 — transient storage failures never leave gaps or false acknowledgements.
 
 import (
+	"fmt"
 	"go/token"
+	"go/types"
 	"strings"
 
 	"golang.org/x/tools/go/ssa"
@@ -87,6 +89,8 @@ func ctxDoneEdges(fn *ssa.Function) []Edge {
 }
 
 func runC05(c *Ctx) {
+	c05VFSWriter(c)
+	c05BackendStreamReads(c)
 	// R1/R2 upload loop
 	if fn := c.fn("R1-position-after-upload", "(*ls.Replica).syncOnce"); fn != nil {
 		const rule = "R1-position-after-upload"
@@ -342,4 +346,139 @@ func c05Resumable(c *Ctx) {
 		okF, why := failStopOK(rd, call)
 		c.check(okF, rule, fnName(rd)+": a failed retry() ends Read with that error", c.pos(call), "fail-stop", why)
 	}
+}
+
+// c05VFSWriter: the VFS write path is the other level-0 producer.  Its TXID counters
+// (expectedTXID, pendingTXID, pos) advance only on the nil edge of the upload of the
+// transaction they count: a counter advanced before a failed upload makes the next sync
+// store TXID n+1 while n was never stored (a permanent gap in level 0).
+func c05VFSWriter(c *Ctx) {
+	const rule = "R9-vfs-counters-after-upload"
+	fn := c.fnOpt("(*ls.VFSFile).syncToRemoteWithLock")
+	if fn == nil {
+		return // build without the vfs tag
+	}
+	ups := callsToDeep(fn, nameHasSuffix(".WriteLTXFile"))
+	c.floor(rule, len(ups), 1, "WriteLTXFile in the VFS sync")
+	n := 0
+	for _, up := range ups {
+		if up.Parent() != fn {
+			continue
+		}
+		nilE := cmpFact(vIs(resultOf(up, 1)), token.EQL, vNil(), "WriteLTXFile err == nil")
+		for _, f := range []string{"VFSFile.expectedTXID", "VFSFile.pendingTXID", "VFSFile.pos"} {
+			for _, st := range storesToFieldDeep(fn, f) {
+				n++
+				site := ssa.Instruction(st)
+				if st.Parent() != fn {
+					site = liftTo(fn, st)
+					if site == nil {
+						c.undecided(rule, fnName(fn)+": "+f+" advances only after the upload succeeded", c.pos(st), "store in a helper with several call sites")
+						continue
+					}
+				}
+				c.requireGuard(rule, fn, Site{site, f + " = …"}, nilE)
+			}
+		}
+		// the uploaded id is the pending one
+		lv, mn, mx := namedArg(up, "level"), namedArg(up, "minTXID"), namedArg(up, "maxTXID")
+		if lv != nil && mn != nil && mx != nil {
+			c.check(vFieldLoad("VFSFile.pendingTXID", nil)(mn) && vFieldLoad("VFSFile.pendingTXID", nil)(mx) && vConstInt(0)(lv), rule, fnName(fn)+": uploads level 0 file (pendingTXID, pendingTXID)", c.pos(up), "provenance matches", "the uploaded TXID is not the pending one")
+		}
+	}
+	c.floor(rule, n, 3, "counter stores in the VFS sync")
+}
+
+// c05BackendStreamReads: every replica client consumes the LTX stream it is asked to
+// store through a reader that can end early (a compaction pipe closed with the source's
+// error, a resumable download out of retries).  Wherever a backend reads that stream, a
+// read error other than a clean io.EOF is fail-stop: treating a premature end as "whole
+// object buffered" publishes a truncated file and acknowledges it.
+func c05BackendStreamReads(c *Ctx) {
+	const rule = "R10-backend-stream-read-errors"
+	isRead := nameIs("io.CopyN", "io.Copy", "io.CopyBuffer", "io.ReadFull", "io.ReadAll", "io.ReadAtLeast", "(*bytes.Buffer).ReadFrom")
+	var fromReaderParamD func(v ssa.Value, d int) bool
+	fromReaderParamD = func(v ssa.Value, d int) bool {
+		if v == nil || d > 3 {
+			return false
+		}
+		for _, o := range origins(v) {
+			switch x := o.(type) {
+			case *ssa.Parameter:
+				if it, isI := x.Type().Underlying().(*types.Interface); isI && it.NumMethods() >= 1 && strings.HasSuffix(x.Type().String(), "io.Reader") {
+					return true
+				}
+			case *ssa.Call:
+				// a wrapper around the stream (byte counter, tee, buffered or multi reader)
+				for _, a := range x.Call.Args {
+					if fromReaderParamD(a, d+1) {
+						return true
+					}
+				}
+			case *ssa.MakeInterface:
+				if fromReaderParamD(x.X, d+1) {
+					return true
+				}
+			case *ssa.ChangeInterface:
+				if fromReaderParamD(x.X, d+1) {
+					return true
+				}
+			case *ssa.Slice:
+				// variadic arguments (io.MultiReader(&buf, rd)): the backing array's elements
+				if al, ok := x.X.(*ssa.Alloc); ok && al.Referrers() != nil {
+					for _, r := range *al.Referrers() {
+						ia, ok := r.(*ssa.IndexAddr)
+						if !ok || ia.Referrers() == nil {
+							continue
+						}
+						for _, rr := range *ia.Referrers() {
+							if st, ok := rr.(*ssa.Store); ok && fromReaderParamD(st.Val, d+1) {
+								return true
+							}
+						}
+					}
+				}
+			}
+		}
+		return false
+	}
+	fromReaderParam := func(v ssa.Value) bool { return fromReaderParamD(v, 0) }
+	n := 0
+	for _, fn := range c.P.ProdFuncs() {
+		tp := typesPkgOf(fn)
+		if tp == nil {
+			continue
+		}
+		rel, ok := relPkg(tp)
+		if !ok || rel == "" || rel == "internal" || strings.HasPrefix(rel, "cmd") || !prodPkgs[rel] {
+			continue // the core packages are covered by the error-flow cones
+		}
+		for _, ci := range callsTo(fn, isRead) {
+			call, ok := ci.(*ssa.Call)
+			if !ok || errResultIndex(call.Call.Signature()) < 0 {
+				continue
+			}
+			src := false
+			for _, a := range call.Call.Args {
+				if fromReaderParam(a) {
+					src = true
+				}
+			}
+			if !src {
+				continue
+			}
+			n++
+			out, over := failStop(fn, call, false, false, "errors.Is:io.EOF")
+			construct := fnName(fn) + ": " + calleeName(call) + " on the LTX stream is fail-stop (clean EOF excepted)"
+			switch {
+			case over:
+				c.undecided(rule, construct, c.pos(call), "state budget exceeded")
+			case len(out) == 0:
+				c.ok(rule, construct, c.pos(call), "no success return reachable after a read error other than io.EOF")
+			default:
+				c.fail(rule, construct, c.pos(call), fmt.Sprintf("after a read error that is not a clean EOF a %s return at %s is reachable: a stream that ended early is stored and acknowledged as complete", out[0].Kind, c.pos(out[0].Ret)))
+			}
+		}
+	}
+	c.floor(rule, n, 3, "reads of the uploaded LTX stream in the replica clients")
 }
